@@ -164,6 +164,13 @@ func pagedApp(rc *rcase) *app.App {
 func engineWalk(rc *rcase, size uint32, drv string, c *vk.Ctx) (string, string, int) {
 	a := pagedApp(rc)
 	cfg := app.Config{OutputSize: size, FlagCount: 1, SessionId: "s", Root: "root"}
+	if size%2 == 1 {
+		// a side-effect free pre-VM function (Engine.WithFirst): it runs again with every per-request engine and
+		// must not move the page position
+		a.Funcs["_first"] = &app.FuncSpec{Sym: "_first", Kind: "idlang"}
+		cfg.First = true
+		c.Count("engine_walks_with_first_function", 1)
+	}
 	var d app.Driver
 	var b *app.Backend
 	if drv == "long" {
